@@ -231,3 +231,7 @@ fn drop_oversized_k(k: u8, l0: u8, l1: u8, max_payload: usize) -> u32 {
     core::mem::forget(s);
     1 | (if d { 2 } else { 0 })
 }
+
+// NOTE: `drop_oversized` with two queued datagrams of which one is oversized (VecDeque::retain over a
+// data-dependent queue shape) ran CBMC out of its 10 GB budget after 90 s even with the order fixed per
+// branch - outside the claim (seed C13-4 is therefore not detected).
